@@ -139,6 +139,25 @@ def bounded_lazy_eval(p):
     mm(lz)
     if not S.check(c.n == 2, dict(what='re-evaluated after clear_cache', none=ret_none), f'after clear_cache evaluated {c.n} times in total (expected 2)'):
       return S.result()
+  # equal sub-expressions inside ONE call are still separate evaluations (impure / fresh-object callees)
+  def pair(a, b=None):
+    return (a, b)
+  for how in ('same-object', 'structurally-equal', 'kwarg'):
+    c = Counter()
+    sub = lazy_fns.trace(c)(1)
+    if how == 'same-object':
+      lz, eager_calls = lazy_fns.trace(pair)(sub, sub), 2
+    elif how == 'structurally-equal':
+      lz, eager_calls = lazy_fns.trace(pair)(lazy_fns.trace(c)(1), lazy_fns.trace(c)(1)), 2
+    else:
+      lz, eager_calls = lazy_fns.trace(pair)(sub, b=sub), 2
+    got = expect(lambda: mm(lz))
+    if not S.check(got[0] == 'ok' and c.n == eager_calls, dict(what='equal sub-expressions in one call', how=how),
+                   f'{how}: the sub-expression was evaluated {c.n} times (eager evaluation calls it {eager_calls} times); result {got}'):
+      return S.result()
+  fresh = mm(lazy_fns.trace(pair)(lazy_fns.trace(list)(), lazy_fns.trace(list)()))
+  if not S.check(fresh[0] is not fresh[1], dict(what='equal sub-expressions yield distinct fresh objects'), f'pair(list(), list()) returned the same list object twice: {fresh}'):
+    return S.result()
   # cached calls that differ only in a keyword value whose hash collides (hash(-1) == hash(-2) in CPython)
   def shape_without(shape, axis=0):
     return tuple(d for i, d in enumerate(shape) if i != axis % len(shape))
